@@ -22,7 +22,9 @@ impl ReplayProtection {
     }
 
     pub fn already_received(&self, sequence: u64) -> bool {
-        if sequence + NETCODE_REPLAY_BUFFER_SIZE as u64 <= self.most_recent_sequence {
+        // Same as `sequence + NETCODE_REPLAY_BUFFER_SIZE <= most_recent_sequence`, without overflowing for huge sequences
+        let buffer_size = NETCODE_REPLAY_BUFFER_SIZE as u64;
+        if self.most_recent_sequence >= buffer_size && sequence <= self.most_recent_sequence - buffer_size {
             return true;
         }
 
